@@ -372,6 +372,13 @@ func (m *Manager[T]) scan(id string) error {
 			return err
 		}
 
+		// the children were read before the subscription above was in place,
+		// so a child added or removed in between was announced to nobody.
+		// Look again and restart the client if it was built from a stale set.
+		children, err := GetNodes(cs.nc, cs.node.ID, "all", "", false)
+		if err == nil && !sameChildren(children, cs.nec.Children) {
+			cs.stop(nil)
+		}
 	}
 
 	// remove nodes that have been deleted
@@ -386,6 +393,23 @@ func (m *Manager[T]) scan(id string) error {
 	}
 
 	return nil
+}
+
+// sameChildren reports whether nodes are the children a client was built from
+func sameChildren(nodes []data.NodeEdge, children []data.NodeEdgeChildren) bool {
+	if len(nodes) != len(children) {
+		return false
+	}
+	ids := make(map[string]bool, len(children))
+	for _, c := range children {
+		ids[c.NodeEdge.ID] = true
+	}
+	for _, n := range nodes {
+		if !ids[n.ID] {
+			return false
+		}
+	}
+	return true
 }
 
 func mapKey(node data.NodeEdge) string {
